@@ -9,7 +9,7 @@ import os
 from . import core, tlcrun, par, impl, engine
 
 ENGINE_INVARIANTS = ['Correct', 'ErrCorrect', 'StreamPrefix', 'PullBound', 'Protocol', 'HeaderWidth', 'SortSpec', 'Emit']
-ENGINE_PROPERTIES = ['Prompt', 'SourcesUnchanged', 'OutGrows']
+ENGINE_PROPERTIES = ['Prompt', 'SourcesUnchanged', 'OutGrows', 'ChainRefinement']
 
 
 def engine_cfg(path, queries, recsA, recsB='R_none', maxA=2, maxB=0, hdrmodes=(False,), breakpoints=(0,), emit=True, mut='', invariants=None, properties=None, cyclic=False, spec=None, constraints=(), next_=None, count=False):
